@@ -257,6 +257,13 @@ func (res *propResult) write(cfg *PropConfig, tier string, seed int, wall float6
 			}
 		}
 	}
+	// the slowest obligations of this run: the margin against the solver timeouts
+	byMs := append([]*Obl{}, res.obls...)
+	sort.SliceStable(byMs, func(i, j int) bool { return byMs[i].Ms > byMs[j].Ms })
+	var slowest []map[string]interface{}
+	for i := 0; i < len(byMs) && i < 8; i++ {
+		slowest = append(slowest, map[string]interface{}{"obligation": byMs[i].Name, "status": byMs[i].Status, "backend": byMs[i].Backend, "ms": byMs[i].Ms})
+	}
 	sort.Strings(res.notes)
 	var unc []string
 	for k, v := range res.uncontract {
@@ -274,6 +281,7 @@ func (res *propResult) write(cfg *PropConfig, tier string, seed int, wall float6
 		"backends":                 res.stats.ByBackend,
 		"solver_ms_total":          res.stats.TotalMs,
 		"samples":                  samples,
+		"slowest_obligations":      slowest,
 		"abstractions":             res.notes,
 		"calls_without_contract":   unc,
 		"not_decided":              cfg.NotDecided,
